@@ -16,13 +16,14 @@ import numpy
 
 
 class Elem:
-    __slots__ = 'chain', 'ref', 'b', 'path'
+    __slots__ = 'chain', 'ref', 'b', 'path', 'cellref'
 
-    def __init__(self, chain, ref, b, path):
+    def __init__(self, chain, ref, b, path, cellref=None):
         self.chain = chain      # literal tuple of TransformItems that seq[i] must return
         self.ref = ref          # reference element
         self.b = b              # id of the base-universe element this element descends from
         self.path = path        # derived steps since the base: (('c', k) | ('e', k), ...)
+        self.cellref = cellref if cellref is not None else ref  # reference of the base cell (where the leading Index items end)
 
 
 # ---------------------------------------------------------------- bases
@@ -81,7 +82,7 @@ def _structured_model(name, rootindex, axes, nrefine):
             levels.insert(0, tuple(v % 2 for v in idx))
             idx = [v // 2 for v in idx]
         chain = (root,) + tuple(transform.Index(naxes, v) for v in idx) + tuple(ctrans[b] for b in levels) + tuple(et)
-        elems.append(Elem(chain, elemref, (name, tuple(idx), tuple(levels)), ()))
+        elems.append(Elem(chain, elemref, (name, tuple(idx), tuple(levels)), (), box))
     return elems
 
 
@@ -91,10 +92,10 @@ def _structured(name, rootindex, axes, nrefine):
     return seq, _structured_model(name, rootindex, axes, nrefine)
 
 
-def _plain(name, chains, refs, todims, fromdims):
+def _plain(name, chains, refs, todims, fromdims, cellrefs=None):
     from nutils import transformseq
     seq = transformseq.PlainTransforms(tuple(chains), todims, fromdims)
-    return seq, [Elem(c, r, (name, i), ()) for i, (c, r) in enumerate(zip(chains, refs))]
+    return seq, [Elem(c, r, (name, i), (), cr) for i, (c, r, cr) in enumerate(zip(chains, refs, cellrefs or refs))]
 
 
 def _index(name, ndims, length, offset, refs):
@@ -139,14 +140,14 @@ def build_base(name):
         return _plain('p2', chains, [tri] * 4, 2, 2) + (sib,)
     if name == 'p2d':  # mixed depth, mixed reference, one chain per cell or per child of a cell
         chains = [(I(2, 0), SC(2, 3)), (I(2, 1),), (I(2, 0), SC(2, 0)), (I(2, 2), transform.TensorChild(SC(1, 1), SC(1, 0))), (I(2, 0), SC(2, 1), SC(2, 2))]
-        seq, model = _plain('p2d', chains, [tri, tri, tri, sq, tri], 2, 2)
+        seq, model = _plain('p2d', chains, [tri, tri, tri, sq, tri], 2, 2, [tri, tri, tri, sq, tri])
         model[0].b, model[0].path = ('p2d', 'cell0'), (('c', 3),)
         model[2].b, model[2].path = ('p2d', 'cell0'), (('c', 0),)
         model[4].b, model[4].path = ('p2d', 'cell0'), (('c', 1), ('c', 2))
         return seq, model, None
     if name == 'p1e':  # edges of two triangles, as a plain sequence with fromdims 1
         chains = [(I(2, 0), SE(2, 2)), (I(2, 0), SE(2, 0)), (I(2, 1), SE(2, 1)), (I(2, 1), SE(2, 0))]
-        seq, model = _plain('p1e', chains, [line] * 4, 2, 1)
+        seq, model = _plain('p1e', chains, [line] * 4, 2, 1, [tri] * 4)
         for e, (cell, k) in zip(model, [(0, 2), (0, 0), (1, 1), (1, 0)]):
             e.b, e.path = ('p1e', cell), (('e', k),)
         return seq, model, None
@@ -167,11 +168,11 @@ def nutils_refs(model, ndims):
 
 
 def m_refined(model):
-    return [Elem(e.chain + (ct,), cr, e.b, e.path + (('c', k),)) for e in model for k, (ct, cr) in enumerate(zip(e.ref.child_transforms, e.ref.child_refs))]
+    return [Elem(e.chain + (ct,), cr, e.b, e.path + (('c', k),), e.cellref) for e in model for k, (ct, cr) in enumerate(zip(e.ref.child_transforms, e.ref.child_refs))]
 
 
 def m_edges(model):
-    return [Elem(e.chain + (et,), er, e.b, e.path + (('e', k),)) for e in model for k, (et, er) in enumerate(zip(e.ref.edge_transforms, e.ref.edge_refs))]
+    return [Elem(e.chain + (et,), er, e.b, e.path + (('e', k),), e.cellref) for e in model for k, (et, er) in enumerate(zip(e.ref.edge_transforms, e.ref.edge_refs))]
 
 
 def disjoint(p, q):
@@ -402,6 +403,73 @@ def tails(ref, tier):
     return out
 
 
+_SWAPS = {}
+
+
+def swap_table(ref):
+    '''pairs (child of ref, edge of that child) <-> (edge of ref, child of that edge) that denote the same affine map,
+    found by comparing the maps on the vertices of the final reference; both directions'''
+    if ref not in _SWAPS:
+        tab = {}
+        if ref.ndims:
+            down = []
+            for et, er in zip(ref.edge_transforms, ref.edge_refs):
+                for ct2, cr2 in zip(er.child_transforms, er.child_refs):
+                    down.append(((et, ct2), cr2))
+            for ct, cr in zip(ref.child_transforms, ref.child_refs):
+                if not cr.ndims:
+                    continue
+                for et2, er2 in zip(cr.edge_transforms, cr.edge_refs):
+                    for pair, fref in down:
+                        if fref == er2 and same_map((ct, et2), pair, er2):
+                            tab[ct, et2] = pair
+                            tab[pair] = (ct, et2)
+        _SWAPS[ref] = tab
+    return _SWAPS[ref]
+
+
+def step_ref(ref, item):
+    'reference reached from `ref` through child or edge item, or None'
+    if item.fromdims == item.todims:
+        for t, r in zip(ref.child_transforms, ref.child_refs):
+            if t == item:
+                return r
+    elif ref.ndims:
+        for t, r in zip(ref.edge_transforms, ref.edge_refs):
+            if t == item:
+                return r
+    return None
+
+
+_EQUIV = {}
+
+
+def equivalents(cellref, items):
+    'all chains obtained from `items` (starting at reference cellref) by swapping adjacent child/edge pairs; includes items itself'
+    key = cellref, items
+    if key in _EQUIV:
+        return _EQUIV[key]
+    seen = {items}
+    todo = [items]
+    while todo:
+        cur = todo.pop()
+        ref = cellref
+        for pos in range(len(cur) - 1):
+            if ref is None:
+                break
+            pair = swap_table(ref).get((cur[pos], cur[pos + 1]))
+            if pair is not None:
+                new = cur[:pos] + pair + cur[pos + 2:]
+                if new not in seen:
+                    seen.add(new)
+                    todo.append(new)
+            ref = step_ref(ref, cur[pos])
+    if len(_EQUIV) > 100000:
+        _EQUIV.clear()
+    _EQUIV[key] = seen
+    return seen
+
+
 _APPLIED = {}
 
 
@@ -444,10 +512,48 @@ def seqkind(seq):
     return n
 
 
+def ncells(chain):
+    from nutils import transform
+    n = 0
+    while n < len(chain) and isinstance(chain[n], transform.Index):
+        n += 1
+    return n
+
+
 class Mismatch(Exception):
     def __init__(self, key, what):
         self.key = key
         self.what = what
+
+
+def equivalent_queries(seq, kind, e, i, tk, tail, tref, stats):
+    '''swap-equivalent spellings of seq[i] + tail in which the element's own part (after the Index items) is
+    spelled differently, e.g. (cell, edge, child-of-edge) for the element (cell, child) with tail (edge-of-child)'''
+    c = e.chain
+    ncell = ncells(c)
+    own = c[ncell:]
+    for form in equivalents(e.cellref, own + tail):
+        if form[:len(own)] == own:
+            continue
+        q2 = c[:ncell] + form
+        if stats is not None:
+            stats['queries'] += 1
+            stats['equiv'] += 1
+        try:
+            gi, gt = seq.index_with_tail(q2)
+            gt = tuple(gt)
+        except Exception as ex:
+            raise Mismatch('equiv:raise:{}:{}'.format(tk, kind), 'index_with_tail({}) raised {!r}; the chain is a swap-equivalent spelling of seq[{}] + {}'.format(q2, ex, i, tail))
+        if gi != i:
+            raise Mismatch('equiv:index:{}:{}'.format(tk, kind), 'index_with_tail({}) returned index {}; the chain is a swap-equivalent spelling of seq[{}] + {}'.format(q2, gi, i, tail))
+        if not same_map(own + gt, own + tail, tref):
+            raise Mismatch('equiv:map:{}:{}'.format(tk, kind), 'index_with_tail({}) returned tail {} which is not the remainder of seq[{}] + {}'.format(q2, gt, i, tail))
+        if not tail:
+            try:
+                if seq.index(q2) != i:
+                    raise Mismatch('equiv:index:notail:' + kind, 'index({}) != {}'.format(q2, i))
+            except ValueError as ex:
+                raise Mismatch('equiv:raise:notail:' + kind, 'index({}) raised {!r}; the chain is a swap-equivalent spelling of seq[{}]'.format(q2, ex, i))
 
 
 def observe(seq, model, tier, stats=None, unknown=()):
@@ -504,6 +610,7 @@ def observe(seq, model, tier, stats=None, unknown=()):
         if got[0] != i or tuple(got[1]) != ():
             raise Mismatch('index_with_tail:notail:' + kind, 'index_with_tail(seq[{}]) = {}'.format(i, got))
         wrapped = set()  # index/contains/contains_with_tail are thin wrappers: one tail of each kind per element
+        equivalent_queries(seq, kind, e, i, 'notail', (), e.ref, stats)
         for tk, tail, tref in tails(e.ref, tier):
             q = c + tail
             if stats is not None:
@@ -527,6 +634,8 @@ def observe(seq, model, tier, stats=None, unknown=()):
                 if gt != tail:
                     stats['rewritten'] += 1
                 stats['forms'].add((tk, bool(transform.iscanonical(gt)), gt == transform.uppermost(gt)))
+            if tier != 'quick' or len(tail) == 1:
+                equivalent_queries(seq, kind, e, i, tk, tail, tref, stats)
             if tk in wrapped:
                 continue
             wrapped.add(tk)
